@@ -45,7 +45,7 @@ func qeSpecVerdict(f world.QuoteFields, d world.QeIdentityDoc) bool {
 }
 
 func C07(c *core.Ctx) {
-	c.Rule = "QE reports (MISCSELECT, ATTRIBUTES, MRSIGNER, ISVPRODID, ISVSVN random, re-signed by the PCK key) against signed QE Identity documents: masks of random content with report bits set outside the mask, value/mask mismatches in single bits, mask/field lengths 3/4/5 and 15/16/17, MRSIGNER and ISVPRODID mismatches, ordered level lists of 0..4 levels with ISVSVN at report-1/report/report+1 and at values beyond 16 bits (report + k*65536, 65535, 65536, 2^31, 2^32-1) and each of the 7 statuses; through verify.RawTdxQuote with collateral. non-trivial = every case; distinct = distinct (report, identity)"
+	c.Rule = "QE reports (MISCSELECT, ATTRIBUTES, MRSIGNER, ISVPRODID, ISVSVN random, re-signed by the PCK key) against signed QE Identity documents: masks of random content with report bits set outside the mask, value/mask mismatches in single bits, mask/field lengths 3/4/5 and 15/16/17, value and mask shortened or lengthened together (agreeing with the report over their common length), MRSIGNER and ISVPRODID mismatches, ordered level lists of 0..4 levels with ISVSVN at report-1/report/report+1 and at values beyond 16 bits (report + k*65536, 65535, 65536, 2^31, 2^32-1) and each of the 7 statuses; through verify.RawTdxQuote with collateral. non-trivial = every case; distinct = distinct (report, identity)"
 	r := c.Rng
 	pki, err := world.NewPKI(r, world.PKIOpts{Now: baseTime, Ext: world.RandomSGXExt(r)})
 	if err != nil {
@@ -132,6 +132,34 @@ func C07(c *core.Ctx) {
 		n := n
 		run("length", fmt.Sprintf("attributesMask of %d bytes", n), nil, func(w *world.World, d *world.QeIdentityDoc) { d.AttributesMask = rb(n) })
 		run("length", fmt.Sprintf("attributes of %d bytes", n), nil, func(w *world.World, d *world.QeIdentityDoc) { d.Attributes = rb(n) })
+	}
+	// value and mask shortened (or lengthened) together: consistent with each other and, over
+	// their common length, with the report -- but not of the length of the report's field
+	for _, n := range []int{0, 1, 8, 15, 17, 24} {
+		n := n
+		run("length", fmt.Sprintf("attributes and attributesMask both of %d bytes, agreeing with the report's first bytes", n), nil, func(w *world.World, d *world.QeIdentityDoc) {
+			m, a := make([]byte, n), make([]byte, n)
+			for i := 0; i < n; i++ {
+				m[i] = 0xff
+				if i < 16 {
+					a[i] = w.Fields.QeAttributes[i]
+				}
+			}
+			d.AttributesMask, d.Attributes = m, a
+		})
+	}
+	for _, n := range []int{0, 1, 2, 3, 5, 8} {
+		n := n
+		run("length", fmt.Sprintf("miscselect and miscselectMask both of %d bytes, agreeing with the report's first bytes", n), nil, func(w *world.World, d *world.QeIdentityDoc) {
+			m, a := make([]byte, n), make([]byte, n)
+			for i := 0; i < n; i++ {
+				m[i] = 0xff
+				if i < 4 {
+					a[i] = byte(w.Fields.QeMiscSelect >> (8 * i))
+				}
+			}
+			d.MiscselectMask, d.Miscselect = m, a
+		})
 	}
 	run("mrsigner", "mrsigner differs in one bit", nil, func(w *world.World, d *world.QeIdentityDoc) {
 		v := append([]byte{}, d.Mrsigner...)
